@@ -3,7 +3,8 @@
 and records which checks report it (by applying the patch to /repo, running every quick check without evidence, reverting)."""
 import json, os, re, shutil, subprocess, sys
 prop, var, src, vlog, needs = sys.argv[1:6]
-sid = f"{prop}-{var}"
+idvar = sys.argv[6] if len(sys.argv) > 6 else var  # id suffix when it differs from the source sub-directory (A -> A3)
+sid = f"{prop}-{idvar}"
 dst = f"/verif/seeded/{sid}"
 os.makedirs(dst, exist_ok=True)
 for f in ("patch.diff", "demo_test.go", "notes.md"):
